@@ -459,7 +459,7 @@ func C05() *engine.Check {
 			longChainSub("C05"),
 			c01Sub("principal-universe-completeness", "complete", 3, 4),
 			c01SealedSub("sealed-tokens-through-container-completeness", "complete", 2, 3),
-			c02Sub("command-universe-completeness", "complete", 4, 6),
+			c02Sub("command-universe-completeness", "complete", 4, 5),
 			c02SeqSub("complete"),
 			c03Sub("policy-universe-completeness", "complete"),
 			c03HookSub("args-hook-completeness", "complete"),
